@@ -136,7 +136,7 @@ def _cases_for_task(task):
                     iname, vname = ALL_COMBOS[sum(idx) % len(ALL_COMBOS)]
                 cfg = dict(CFG_BASE, init_payload=(INIT | INIT_SIDE)[iname])
                 yield (letters, frames, "init-" + iname, cfg, vname, True)
-    elif kind == "list":
+    elif kind in ("list", "sample"):
         for c in task[1]:
             yield c
 
@@ -189,6 +189,7 @@ def _worker(task):
     res = _model_batch(cmds)
     out = {"runs": 0, "cases": 0, "nontrivial": 0, "dist": {}, "k1": [], "dev": [], "samples": [],
            "model_errors": []}
+    seen_seq = set()
 
     def dist(k, s, n=1):
         d = out["dist"].setdefault(k, {})
@@ -205,9 +206,11 @@ def _worker(task):
         kinds = [k if isinstance(k, str) else k[0] for k in r[4][2]]
         out["cases"] += 1
         acked = len(kinds) > 1 and kinds[0] == "ack"
-        if acked and cname == "init-unset" and vname == "none":
-            out["nontrivial"] += 1
-        if cname in ("init-unset",) and vname == "none":
+        first_time = task[0] != "list" and tuple(letters) not in seen_seq
+        seen_seq.add(tuple(letters or ()))
+        if acked and first_time:
+            out["nontrivial"] += 1      # distinct sequences of the enumerated / sampled streams only
+        if first_time:
             dist("length", str(len(frames)))
             for l in (letters or []):
                 dist("letters", l)
@@ -304,12 +307,12 @@ def run(ctx):
 
     maxlen = 5 if ctx.thorough else 4
     two = [ALL_COMBOS[0], ALL_COMBOS[3]]
-    n_sample = 6000
+    n_sample = 3000
     run.rule = (f"EXHAUSTIVE: every sequence of length 0..{maxlen} over the 13-letter frame alphabet {LETTERS} "
                 "x {init payload unset, set} x {variables none, rich (UNSET, aliased pydantic models with unset fields, "
                 "nested lists)} x {plain client, OpenTelemetry client without tracer, with a recording tracer}"
-                + ("" if ctx.thorough else " (at length 4 the configurations are {init unset + variables none, init set + "
-                   "variables rich}; the full 2x2 product up to length 3)")
+                + ("" if ctx.thorough else " (at length 4 each sequence runs with ONE of the four configurations, rotated over the "
+                   "sequences; the full 2x2 product up to length 3)")
                 + (f"; every ack-prefixed sequence of length {maxlen + 1}" if ctx.thorough else
                    f"; a seeded sample of {n_sample} distinct ack-prefixed sequences of length {maxlen + 1} (not exhaustive)")
                 + " x {init unset + variables none, init set + variables rich} x the 3 clients"
@@ -324,12 +327,17 @@ def run(ctx):
         "OpenTelemetry: a recording tracer stub (opentelemetry-sdk is not installed); span attributes are not compared, span names are",
         "the handshake against a real websockets server is RUNTIME-ONLY evidence (no theorem covers it)",
     ]
+    # ---- model data derived from the source; Coq witnesses replayed on the real code (corpus first)
+    from . import c13_deep
+
+    c13_deep.tables(run, I)
+    c13_deep.corpus(run, I)
     t0 = time.time()
     tasks = []
     for L in range(0, maxlen + 1):
         pl = min(L, 2)
         for prefix in itertools.product(range(len(LETTERS)), repeat=pl):
-            tasks.append(("exh", prefix, L, ALL_COMBOS if (ctx.thorough or L < maxlen) else two))
+            tasks.append(("exh", prefix, L, ALL_COMBOS if (ctx.thorough or L < maxlen) else [("rot", "rot")]))
     # ACK-PREFIXED sequences one frame longer (uniform enumeration spends 12/13 of its cases on a first
     # frame that is not the ack): all of them (thorough) / a seeded sample without repetition (quick)
     if ctx.thorough:
@@ -348,12 +356,12 @@ def run(ctx):
             for iname, vname in two:
                 picked.append((letters, frames, "init-" + iname, dict(CFG_BASE, init_payload=INIT[iname]), vname, True))
         for i in range(0, len(picked), 400):
-            tasks.append(("list", picked[i:i + 400]))
+            tasks.append(("sample", picked[i:i + 400]))
     side = side_cases()
     for i in range(0, len(side), 40):
         tasks.append(("list", side[i:i + 40]))
     # longest tasks first
-    tasks.sort(key=lambda t: -(len(LETTERS) ** (t[2] - len(t[1])) * len(t[3]) if t[0] == "exh" else len(t[1])))
+    tasks.sort(key=lambda t: -(len(LETTERS) ** (t[2] - len(t[1])) * len(t[3]) if t[0] == "exh" else 2 * len(t[1])))
     tot = {"runs": 0, "cases": 0, "nontrivial": 0}
     k1_n, k1_first, devs, dev_counts = 0, [], [], {}
     model_errors = []
@@ -437,6 +445,8 @@ def run(ctx):
             p["failing_call"], [c[1] + "/" + c[2] for c in p["history"]], p["variant"], ", ".join(p["differs"]),
             ("; the property's observables %s differ" % p["property_observables_differ"]) if p["property_observables_differ"] else ""),
             p, found_input=bool(p["property_observables_differ"]) or any("changed" in d or "modified" in d for d in p["differs"]))
+    # ---- subscriptions overlapping in time on one client object
+    c13_deep.concurrent(run, I, ctx.rng, 150 if ctx.thorough else 40)
     # ---- runtime-only: real websockets server
     from . import c13_real
 
